@@ -46,15 +46,11 @@ func (i *BigInt) IsZero() bool {
 }
 
 func (i *BigInt) IsEven() bool {
-	bigInt := i.ToGoBigInt()
-	result := bigInt.Mod(bigInt, big.NewInt(2))
-	return len(result.Bits()) == 0
+	return i.ToGoBigInt().Bit(0) == 0
 }
 
 func (i *BigInt) IsOdd() bool {
-	bigInt := i.ToGoBigInt()
-	result := bigInt.Mod(bigInt, big.NewInt(2))
-	return len(result.Bits()) != 0
+	return i.ToGoBigInt().Bit(0) != 0
 }
 
 // Returns the SmallInt representation of i.
